@@ -984,6 +984,8 @@ def dir_history_scope(res, pid, rng, tier):
     fails = []
     body = "".join("ip address %s 255.255.255.0\n neighbor %s remote-as 65001\n" % (
         ipaddress.IPv4Address(rng.getrandbits(32)), ipaddress.IPv6Address(rng.getrandbits(128))) for _ in range(12))
+    # members of the preserved networks of the run (they stay as written in every file, also after a file has failed)
+    body += "".join("ip host %s\n" % ipaddress.IPv4Address(a) for a in (0x2C010203, 0x2C01FFFE, 0x0A090807, 0xC0A80102))
     for salt in (None, "dirsalt"):
         d = tempfile.mkdtemp(prefix="ncverif_")
         try:
@@ -999,7 +1001,8 @@ def dir_history_scope(res, pid, rng, tier):
                 open(dump, "w").write("".join("%s\t%s\n" % (ln.split()[2], "9.9.9.%d" % (i % 250)) for i, ln in enumerate(body.splitlines()) if ln.startswith("ip address")))
             from . import fa as _fa
             with _fa.LogCap():
-                anonymize_files(ind, outd, False, True, salt=salt, dumpfile=dump if salt is not None else None)
+                anonymize_files(ind, outd, False, True, salt=salt, dumpfile=dump if salt is not None else None,
+                                preserve_networks=["44.1.0.0/16", "10.0.0.0/8", "192.168.0.0/16"])
             outs = {}
             for r_, _, fs in os.walk(outd):
                 for f in fs:
@@ -1013,7 +1016,7 @@ def dir_history_scope(res, pid, rng, tier):
                 fails.append({"kind": "identical files of one run received different address mappings (a file failed in between)",
                               "salt": salt, "first_lines": {k: outs[k].split("\n")[0] for k in good}})
             elif salt is not None:
-                cfg4 = ipgen.Cfg(4, salt, None, None, None, "md5")
+                cfg4 = ipgen.Cfg(4, salt, None, None, ["44.1.0.0/16", "10.0.0.0/8", "192.168.0.0/16"], "md5")
                 a0 = int(ipaddress.IPv4Address(body.split()[2]))
                 want = spec_images(cfg4, [a0])[0]
                 got = outs["a.cfg"].split()[2]
